@@ -411,6 +411,22 @@ Theorem per_match_multi_line_one_record_per_submatch_refuted :
 Proof. exists empties_find, ml_env, cfg_vimgrep, ab_match. vm_compute. repeat split; reflexivity. Qed.
 Print Assumptions per_match_multi_line_one_record_per_submatch_refuted.
 
+(* who is in the two classes: an empty submatch never gets a multi-line -o record; a non-empty submatch
+   that starts inside the block always gets a --vimgrep record (only empty ones can be dropped) *)
+Theorem empty_submatch_is_dropped_by_only_matching :
+  forall env sk m, snd m <= fst m -> OnlyTerminatorsOrEmpty env sk m.
+Proof. exact empty_submatch_has_no_piece. Qed.
+Print Assumptions empty_submatch_is_dropped_by_only_matching.
+
+Theorem nonempty_submatch_gets_a_per_match_record :
+  forall env sk m, fst m < snd m -> fst m < length (k_bytes sk) -> ~ TouchesNoLine env sk m.
+Proof. exact nonempty_submatch_touches_a_line. Qed.
+Print Assumptions nonempty_submatch_gets_a_per_match_record.
+Example nonempty_submatch_example :
+  ~ TouchesNoLine ml_env two_line_sunk (2, 5) /\ OnlyTerminatorsOrEmpty ml_env two_line_sunk (3, 3)
+  /\ OnlyTerminatorsOrEmpty ml_env two_line_sunk (3, 4) /\ TouchesNoLine ml_env two_line_sunk (4, 4).
+Proof. vm_compute. repeat split; try reflexivity. discriminate. Qed.
+
 Check only_matching_multi_line_records :
   forall cfg env path sk w,
     st_only_matching cfg = true -> k_matches sk <> [] -> spans_ordered 0 (k_matches sk) ->
